@@ -211,6 +211,13 @@ def r4(ctx):
 
     loops = [p for p in _parents(acks[0], bits.node) if isinstance(p, (ast.For, ast.While))]
     scope = loops[0].body if loops else bits.node.body
+    # call-free assignments in front of the loop (a mask derived from the bitmap once per header) belong to the decision
+    if loops:
+        top = loops[0]
+        while getattr(top, "_parent", None) is not None and top._parent is not bits.node:
+            top = top._parent
+        before_loop = bits.node.body[:bits.node.body.index(top)] if top in bits.node.body else []
+        scope = [st for st in before_loop if isinstance(st, ast.Assign) and not any(isinstance(x, ast.Call) for x in ast.walk(st))] + list(scope)
 
     def dec(d, word):
         """does the per-datagram code reach _handle_ack for offset d and bitmap `word`?  The body of the loop over the pending
